@@ -4,6 +4,7 @@ import Proofs.C09.Impl
 import Proofs.C09.Spec
 import Proofs.C09.Examples
 import Proofs.C09.Refusals
+import Proofs.C09.FindAndDelete
 /-!
 # C09 — signature hashes equal the legacy, BIP143 and BIP341 definitions
 
@@ -617,6 +618,33 @@ theorem script_code_from_is_suffix_after_kth_separator (s : Bytes) (k : Int) :
   refine ⟨fun h => by simp [scriptCodeFrom, h], fun h => by simp [scriptCodeFrom, h], fun hk => ?_⟩
   exact ⟨fun r h => scriptCodeFrom_some hk h, scriptCodeFrom_none hk⟩
 
+/-! ## T4c — FindAndDelete (what hands `legacy` its script code in a signature check) -/
+
+/-- T4c: btclib's `find_and_delete` -- offsets `pc2`, `pc` walking the script, `kept` slices joined at the end --
+    IS Core's `FindAndDelete` (skip the copies of the target standing at an operation boundary, keep ONE whole
+    operation, go on; the unreadable tail verbatim; an empty target and a script with no match are returned as they
+    are): same bytes, same count, for every script and every target. -/
+theorem find_and_delete_is_core (s t : Bytes) : Impl.findAndDeleteImpl s t = findAndDelete s t :=
+  Impl.findAndDeleteImpl_eq s t
+
+/-- T4c: `calculate_script_code` for a pre-segwit check answers Core's script code -- the script from the last
+    executed OP_CODESEPARATOR on with the push of every signature under check removed by FindAndDelete, one after
+    the other -- whenever it answers, and without CONST_SCRIPTCODE it always answers. -/
+theorem calculate_script_code_is_core (script : Bytes) (offset : Nat) (sigs : List Bytes) (cs : Bool) (sc : Bytes) :
+    (Impl.calculateScriptCode script offset sigs cs false = .ok sc → sc = legacyScriptCode script offset sigs) ∧
+    Impl.calculateScriptCode script offset sigs false false = .ok (legacyScriptCode script offset sigs) :=
+  ⟨Impl.calculateScriptCode_ok, Impl.calculateScriptCode_lax script offset sigs⟩
+
+/-- T4c, composed: the digest a pre-segwit OP_CHECKSIG checks -- `calculate_script_code` then `sig_hash.legacy` --
+    is Core's `SignatureHash` of the FindAndDelete'd script code: FindAndDelete first, on the script code with its
+    separators still in, the elision of OP_CODESEPARATORs after it, in the serializer. -/
+theorem legacy_checksig_digest_is_core (S : Bytes → Bytes) (script : Bytes) (offset : Nat) (sigs : List Bytes)
+    (cs : Bool) (tx : Tx) (i ht : Int) (sc d : Bytes)
+    (h1 : Impl.calculateScriptCode script offset sigs cs false = .ok sc) (h2 : Impl.legacy S sc tx i ht = .ok d) :
+    d = legacyDigest (Impl.hash256 S) (legacyScriptCode script offset sigs) tx i.toNat (Impl.word ht) := by
+  rw [← Impl.calculateScriptCode_ok h1]
+  exact Impl.legacy_eq_spec h2
+
 /-- the CompactSize writer of the specification is the translated `var_int.serialize`. -/
 theorem compactSize_is_var_int_serialize (n : Nat) (hn : n < 18446744073709551616) :
     Gen.VarInt.serialize (n : Int) = .ok (compactSize n) :=
@@ -696,5 +724,15 @@ example : (Impl.annexAndExt id [[1, 2], [0x50, 9]]).toOption.map (·.1) = some [
     (Impl.annexAndExt id [[0x50, 9]]).toOption.map (·.1) = some [] ∧
     (Impl.annexAndExt id [[1, 2], [0x51, 9]]).toOption.map (·.1) = some [] ∧
     (Impl.annexAndExt id []).toOption = none := by decide
+
+-- FindAndDelete: adjacent copies go in one pass; a copy inside a push's data is never looked at; what a deletion joins
+-- is not deleted again; a separator in the script code survives FindAndDelete and goes in the serializer
+example : findAndDelete [1, 1, 1, 1] [1, 1] = ([], 2) ∧
+    findAndDelete [0x03, 0x01, 0xAA, 0x00, 0x01, 0xAA] [0x01, 0xAA] = ([0x03, 0x01, 0xAA, 0x00], 1) ∧
+    findAndDelete [0x01, 0x01, 0xAA, 0xAA] [0x01, 0xAA] = ([0x01, 0x01, 0xAA, 0xAA], 0) ∧
+    findAndDelete [0x51, 0x02] [0x51] = ([0x02], 1) ∧
+    Impl.findAndDeleteImpl [0x51, 0x02] [0x51] = ([0x02], 1) ∧
+    legacyScriptCode [0x00, 0xAB, 0x01, 0x07, 0xAB, 0x51] 2 [[0x07]] = [0xAB, 0x51] ∧
+    Impl.calculateScriptCode [0x00, 0xAB, 0x01, 0x07, 0xAB, 0x51] 2 [[0x07]] true false = .error .value := by decide
 
 end Props.C09
